@@ -108,8 +108,74 @@ let layout_case line =
   let bs = rd_blobs t in
   if layout_b bs (n_of_int size) then "1" else "0"
 
+(* ---- repacker ---- *)
+let rd_entries t =
+  let n = ni t in
+  ntimes n (fun () ->
+    let pack = bytes_of_hex (next t) in
+    let off = ni t in let len = ni t in let ul = ni t in
+    let i = bytes_of_hex (next t) in
+    { ce_pack = pack; ce_loc = { l_off = n_of_int off; l_len = n_of_int len; l_ulen = ulen_of ul }; ce_id = i })
+
+let fmt_chunks cs =
+  let b = Buffer.create 128 in
+  Buffer.add_string b (string_of_int (List.length cs));
+  List.iter (fun (pack, bl) ->
+    Buffer.add_string b (Printf.sprintf " C %s %d %d %d" (hex_of_bytes pack) (int_of_n bl.bl_off) (int_of_n bl.bl_len) (List.length bl.bl_blobs));
+    List.iter (fun (l, i) ->
+      Buffer.add_string b (Printf.sprintf " %s:%d:%d:%s" (hex_of_bytes i) (int_of_n l.l_off) (int_of_n l.l_len)
+        (match l.l_ulen with None -> "-" | Some u -> string_of_int (int_of_n u)))) bl.bl_blobs) cs;
+  Buffer.contents b
+
+(* coalesce: sort n {...}  (sort flag: the list must already be in the sorted order; reported) *)
+let coalesce_case line =
+  let t = toks line in
+  let _sort = ni t in
+  let es = rd_entries t in
+  match coalesce_all (cpb_coalesce true) (List.map from_index_entry es) with
+  | None -> "panic"
+  | Some cs -> fmt_chunks cs
+
+(* coalloc: n {...}  all of one pack: BlobLocations::coalesce *)
+let coalloc_case line =
+  let t = toks line in
+  let es = rd_entries t in
+  let pack = match es with [] -> List.init 32 (fun _ -> N0) | e :: _ -> e.ce_pack in
+  match coalesce_all bl_coalesce (List.map (fun e -> from_blob_location e.ce_loc e.ce_id) es) with
+  | None -> "panic"
+  | Some cs -> fmt_chunks (List.map (fun bl -> (pack, bl)) cs)
+
+(* repack: fast npacks {packhex datahex} n {entries} ndec {cthex pthex}
+   -> ok k id:bytes:ulen ... | chunks | sorted=b exp=b *)
+let repack_case line =
+  let t = toks line in
+  let _tpe = ni t in
+  let fast = ni t = 1 in
+  let _sort = ni t in
+  let np = ni t in
+  let packs = ntimes np (fun () -> let p = next t in let d = next t in (p, bytes_of_hex d)) in
+  let es = rd_entries t in
+  let nd = if more t then ni t else 0 in
+  let tbl = Hashtbl.create 16 in
+  for _ = 1 to nd do let c = next t in let p = next t in Hashtbl.replace tbl c p done;
+  let store p = List.assoc_opt (hex_of_bytes p) packs in
+  let decode d _ = if fast then Some d else
+    (match Hashtbl.find_opt tbl (hex_of_bytes d) with Some p -> Some (bytes_of_hex p) | None -> None) in
+  let chunks = match coalesce_all (cpb_coalesce true) (List.map from_index_entry es) with
+    | None -> "panic" | Some cs -> fmt_chunks cs in
+  match repack true store decode es with
+  | Panic -> "panic" | Err -> "err"
+  | Ok out ->
+    let exp = List.map (expected_of store decode) es = List.map (fun h -> Some h) out in
+    Printf.sprintf "ok %d %s | %s | sorted=%d exp=%d" (List.length out)
+      (String.concat " " (List.map (fun ((i, d), u) ->
+         Printf.sprintf "%s:%s:%s" (hex_of_bytes i) (hex_of_bytes d)
+           (match u with None -> "-" | Some u -> string_of_int (int_of_n u))) out))
+      chunks (if sorted_ce es then 1 else 0) (if exp then 1 else 0)
+
 let () =
   main_loop (match mode with
     | "codec" -> codec_case | "frombin" -> frombin_case | "fromfile" -> fromfile_case
     | "packer" -> packer_case | "describes" -> describes_case | "layout" -> layout_case
+    | "coalesce" -> coalesce_case | "coalloc" -> coalloc_case | "repack" -> repack_case
     | _ -> failwith "mode")
